@@ -20,16 +20,20 @@ pub struct Case {
     pub run: RunCfg,
     /// emulate successful clones for about half of the files
     pub clone_seed: Option<u64>,
-    /// also pass --no-perms / --no-timestamps (bit 0 / bit 1)
+    /// also pass --no-perms / --no-timestamps / --ownership (bit 0 / bit 1 / bit 2);
+    /// bit 3 (with bit 2): every chown/fchown fails with EPERM - documented as a warning, the fsync must still happen
     pub opts: u8,
+    /// source and destination on a memory-backed filesystem (/dev/shm): the request is still to be honoured
+    #[serde(default)]
+    pub tmpfs: bool,
 }
 
 pub fn strategy() -> BoxedStrategy<Case> {
-    (base_strategy(), run_cfg(), prop::option::weighted(0.2, any::<u64>()), 0u8..4).prop_map(|(base, run, clone_seed, opts)| Case { base, run, clone_seed, opts }).boxed()
+    (base_strategy(), run_cfg(), prop::option::weighted(0.2, any::<u64>()), prop_oneof![3 => 0u8..4, 2 => 0u8..16], prop::bool::weighted(0.12)).prop_map(|(base, run, clone_seed, opts, tmpfs)| Case { base, run, clone_seed, opts, tmpfs }).boxed()
 }
 
 pub fn judge(c: &Case, rec: &mut Rec) -> Verdict {
-    let sb = match Sandbox::new() {
+    let sb = match if c.tmpfs { Sandbox::new_in("/dev/shm") } else { Sandbox::new() } {
         Ok(s) => s,
         Err(e) => return Verdict::Inconclusive(format!("sandbox: {e}")),
     };
@@ -40,6 +44,8 @@ pub fn judge(c: &Case, rec: &mut Rec) -> Verdict {
     b.inv.fsync = true;
     b.inv.no_perms = c.opts & 1 != 0;
     b.inv.no_timestamps = c.opts & 2 != 0;
+    b.inv.ownership = c.opts & 4 != 0;
+    let chown_fails = c.opts & 12 == 12;
     if let Err(e) = materialise(&sb.root, &b.ents) {
         return Verdict::Inconclusive(format!("materialise: {e}"));
     }
@@ -51,10 +57,16 @@ pub fn judge(c: &Case, rec: &mut Rec) -> Verdict {
         Plan::Copy(m) => m,
         _ => return Verdict::Pass,
     };
-    let rules = match c.clone_seed {
+    let mut rules = match c.clone_seed {
         Some(s) => vec![Rule { sys: vec![Sys::Ficlone], path: PathSel::Sandbox, nth: Nth::Prob(s, 500), action: Action::EmulateCloneOk }],
         None => vec![],
     };
+    if chown_fails {
+        rules.push(Rule { sys: vec![Sys::Chown], path: PathSel::Sandbox, nth: Nth::All, action: Action::Errno(libc::EPERM) });
+    }
+    if let Some(e) = super::c06::cfr_errno(&c.run) {
+        rules.push(Rule { sys: vec![Sys::CopyFileRange], path: PathSel::Sandbox, nth: Nth::All, action: Action::Errno(e) });
+    }
     let out = Sup::run(sup_spec(&sb, b.inv.argv(), rules, sched_of(&c.run)));
     rec.eval(1);
     if out.setup_error.is_some() {
@@ -86,10 +98,16 @@ pub fn judge(c: &Case, rec: &mut Rec) -> Verdict {
         format!("{:?}", sched_of(&c.run).kind).split('(').next().unwrap_or(""),
         std::cmp::min(multi, 2),
         out_of_order > 0,
-        if c.clone_seed.is_some() { "some-cloned" } else { "copied" },
+        if c.clone_seed.is_some() { "some-cloned" } else if c.run.cfr != 0 { "copied-in-user-space" } else { "copied" },
         if out.ok() { "0" } else { "!0" }
     );
     let new = rec.class(key);
+    if c.tmpfs {
+        rec.class(format!("on-tmpfs|{}|exit={}", driver, if out.ok() { "0" } else { "!0" }));
+    }
+    if b.inv.ownership {
+        rec.class(format!("ownership|chown-fails={}|exit={}", chown_fails, if out.ok() { "0" } else { "!0" }));
+    }
     if !out.ok() {
         rec.count("exit_nonzero", 1);
         return Verdict::Pass;
@@ -167,6 +185,6 @@ impl Check for C18 {
         }
     }
     fn required_classes(&self, _tier: Tier) -> Vec<String> {
-        ["parblock|", "parfile|", "StarveWorker", "multiblock=2", "some-cloned", "w64|", "w1|"].iter().map(|s| s.to_string()).collect()
+        ["parblock|", "parfile|", "StarveWorker", "multiblock=2", "some-cloned", "copied-in-user-space", "w64|", "w1|", "on-tmpfs|parfile|exit=0", "on-tmpfs|parblock|exit=0", "ownership|chown-fails=true|exit=0"].iter().map(|s| s.to_string()).collect()
     }
 }
